@@ -38,7 +38,10 @@ def generate_queries(cfg, simulate=None, module="MCQueryGen", env=None):
     return out, r
 
 
-def generate_events(num, seed=None, cfg="EventGen.cfg"):
+N_PLANS = 8
+
+
+def generate_events(num, seed=None, cfg="EventGen.cfg", plans=True):
     cfg = cfg or "EventGen.cfg"
     seed = common.seed() if seed is None else seed
     r = common.run_tlc("EventGen", cfg, workers=1,
@@ -50,6 +53,23 @@ def generate_events(num, seed=None, cfg="EventGen.cfg"):
         if key not in seen:
             seen.add(key)
             out.append(e)
+    if plans:
+        # one event per size plan of spec/EventGen.tla (every bank empty / one object / two objects / mixed / one bank
+        # missing), attributes random: the size classes a small free sample may not contain
+        from concurrent.futures import ThreadPoolExecutor
+
+        def one(k):
+            return common.run_tlc("EventGen", cfg, workers=1, env={"VP_PLAN": str(k)},
+                                  extra=["-simulate", "num=1", "-depth", "400", "-seed", str(seed + 100 + k)])
+        with ThreadPoolExecutor(max_workers=8) as tp:
+            for rk in tp.map(one, range(1, N_PLANS + 1)):
+                r.distinct += rk.distinct
+                r.generated += rk.generated
+                for e in rk.tagged("EVENT")[:1]:
+                    key = json.dumps(e, sort_keys=True)
+                    if key not in seen:
+                        seen.add(key)
+                        out.append(e)
     return out, r
 
 
